@@ -85,6 +85,7 @@ type c05nLease struct {
 }
 
 type c05nWorld struct {
+	callAt time.Time // clock read before the latest request was sent (see checkBound)
 	t      *testing.T
 	tc     *tcore
 	hub    *recHub
@@ -114,6 +115,7 @@ func (w *c05nWorld) ctx(i int) context.Context {
 // reqIn sends a request into namespace i: by context while the namespace exists, by path prefix from the root once it
 // has been deleted (what a client would still be able to send).
 func (w *c05nWorld) reqIn(i int, op logical.Operation, path, token string, data map[string]any) rr {
+	w.callAt = time.Now()
 	if w.nss[i].deleted {
 		return w.tc.doCtx(w.tc.ctx, &logical.Request{Operation: op, Path: w.nss[i].path + path, ClientToken: token, Data: data})
 	}
@@ -537,8 +539,11 @@ func TestVerif_C05_LeasesNamespaces(t *testing.T) {
 		fail := func(sig, msg string) {
 			rec.Violation(rt, sig, map[string]any{"history": w.log}, "%s; history=%v", msg, w.log)
 		}
+		// The server computed ttl after the granting request was sent (w.callAt), so the true expiry is at least
+		// callAt+ttl; l.issue is read after the issuing request returned. Both estimates err on the side of the code: the
+		// verdict does not depend on how long a request took.
 		checkBound := func(l *c05nLease, ttl time.Duration, what string) {
-			now := time.Now()
+			now := w.callAt
 			l.lastTTL = ttl
 			if ttl <= 0 {
 				return
